@@ -929,12 +929,17 @@ func c13r3(c *Ctx) {
 				}
 				nilRets++
 				for _, f := range rc.Facts {
-					bo, isB := f.Cond.(*ssa.BinOp)
-					if !isB || bo.Op != token.EQL || !f.Pol {
-						continue
-					}
-					if (c13IsFieldLoad(bo.X, "Name") && c13IsAnnotationLookup(bo.Y, "PackagePhaseAnnotation", "")) || (c13IsFieldLoad(bo.Y, "Name") && c13IsAnnotationLookup(bo.X, "PackagePhaseAnnotation", "")) {
+					if f.Pol && c13IsPhaseNameTest(f.Cond) {
 						guarded++
+						break
+					}
+					// slices.ContainsFunc(phases, pred) answered true: pred accepted some element, so what
+					// every true-return of pred establishes holds for a manifest phase
+					if call, _ := asCall(f.Cond); call != nil && f.Pol && isCallTo(call.Common(), "slices.ContainsFunc") && len(call.Common().Args) == 2 {
+						if pred, _ := sortComparatorFn(call.Common().Args[1]); pred != nil && p.c13PredImpliesPhaseNameTest(pred) {
+							guarded++
+							break
+						}
 					}
 				}
 			}
@@ -1034,6 +1039,7 @@ func c13r3(c *Ctx) {
 		var problems []string
 		// comparator of the sort call compares .Index fields with <
 		sorted := false
+		sortWhy := ""
 		for _, call := range callsIn(collect) {
 			if !sortFuncs[calleeID(call.Common)] {
 				continue
@@ -1044,16 +1050,26 @@ func c13r3(c *Ctx) {
 			if _, resliced := stripConv(call.Common.Args[0]).(*ssa.Slice); resliced {
 				continue // sorts only a sub-slice
 			}
-			for _, a := range call.Common.Args {
-				if mc, ok := a.(*ssa.MakeClosure); ok {
-					if f, isF := mc.Fn.(*ssa.Function); isF && c13ComparesField(f, "Index") {
-						sorted = true
-					}
-				}
+			// less function (sort.Slice*) or three-way function (slices.Sort*Func): a strict ascending
+			// order by the element's Index
+			m, why := p.sortComparatorModel(call.Common)
+			switch {
+			case m == nil:
+				sortWhy = why
+			case m.Desc:
+				sortWhy = "the comparator orders by descending " + m.Shape
+			case m.Shape != "$.Index":
+				sortWhy = "the comparator orders by " + m.Shape + ", not by the element's Index"
+			default:
+				sorted = true
 			}
 		}
 		if !sorted {
-			problems = append(problems, "no sort of the entries by .Index with a strict < comparator")
+			msg := "no sort of the entries by .Index with a strict < comparator"
+			if sortWhy != "" {
+				msg += " (" + sortWhy + ")"
+			}
+			problems = append(problems, msg)
 		}
 		// newPhaseCollector stores Index = loop index of the phases parameter, keyed by phase.Name
 		idxOK := false
@@ -1087,6 +1103,82 @@ func c13r3(c *Ctx) {
 			o2.Fail("%s", strings.Join(problems, "; "))
 		}
 	}
+}
+
+// c13IsPhaseNameTest: cond is `<x>.Name == <obj>.GetAnnotations()[PackagePhaseAnnotation]`.
+func c13IsPhaseNameTest(cond ssa.Value) bool {
+	bo, isB := cond.(*ssa.BinOp)
+	if !isB || bo.Op != token.EQL {
+		return false
+	}
+	return (c13IsFieldLoad(bo.X, "Name") && c13IsAnnotationLookup(bo.Y, "PackagePhaseAnnotation", "")) ||
+		(c13IsFieldLoad(bo.Y, "Name") && c13IsAnnotationLookup(bo.X, "PackagePhaseAnnotation", ""))
+}
+
+// c13PredImpliesPhaseNameTest: the search predicate (body of a find loop turned into a function)
+// answers true only when the phase-name test on its element holds: every return is the test itself,
+// the constant false, or lies behind the test.
+func (p *Program) c13PredImpliesPhaseNameTest(pred *ssa.Function) bool {
+	if pred.Blocks == nil || len(pred.Params) != 1 {
+		return false
+	}
+	elem := pred.Params[0]
+	ofElem := func(cond ssa.Value) bool {
+		// the Name compared is the one of the predicate's element
+		bo := cond.(*ssa.BinOp)
+		for _, side := range []ssa.Value{bo.X, bo.Y} {
+			if !c13IsFieldLoad(side, "Name") {
+				continue
+			}
+			var base ssa.Value
+			switch x := stripConv(side).(type) {
+			case *ssa.UnOp:
+				base = x.X.(*ssa.FieldAddr).X
+			case *ssa.Field:
+				base = x.X
+			}
+			if base == ssa.Value(elem) {
+				return true
+			}
+			if a, isAlloc := base.(*ssa.Alloc); isAlloc {
+				n := 0
+				var val ssa.Value
+				for _, r := range referrersOf(a) {
+					if st, ok := r.(*ssa.Store); ok && st.Addr == ssa.Value(a) {
+						n++
+						val = st.Val
+					}
+				}
+				return n == 1 && val == ssa.Value(elem)
+			}
+		}
+		return false
+	}
+	cases := p.returnCases(pred)
+	trues := 0
+	for _, rc := range cases {
+		if len(rc.Results) != 1 || rc.Results[0] == nil {
+			return false
+		}
+		r := stripConv(rc.Results[0])
+		if b, isC := constBool(r); isC && !b {
+			continue
+		}
+		trues++
+		if c13IsPhaseNameTest(r) && ofElem(r) {
+			continue
+		}
+		ok := false
+		for _, f := range rc.Facts {
+			if f.Pol && c13IsPhaseNameTest(f.Cond) && ofElem(f.Cond) {
+				ok = true
+			}
+		}
+		if !ok {
+			return false
+		}
+	}
+	return trues > 0
 }
 
 // c13BodyEntry: the successor of the loop header that lies inside the loop.
@@ -1290,26 +1382,6 @@ func lastIf(b *ssa.BasicBlock) (*ssa.If, bool) {
 	}
 	iff, ok := b.Instrs[len(b.Instrs)-1].(*ssa.If)
 	return iff, ok
-}
-
-// c13ComparesField: the comparator returns a[i].F < a[j].F.
-func c13ComparesField(f *ssa.Function, field string) bool {
-	for _, b := range f.Blocks {
-		for _, in := range b.Instrs {
-			ret, ok := in.(*ssa.Return)
-			if !ok || len(ret.Results) != 1 {
-				continue
-			}
-			bo, ok := ret.Results[0].(*ssa.BinOp)
-			if !ok || (bo.Op != token.LSS && bo.Op != token.GTR) {
-				return false
-			}
-			if c13IsFieldLoad(bo.X, field) && c13IsFieldLoad(bo.Y, field) {
-				return true
-			}
-		}
-	}
-	return false
 }
 
 // ---------------------------------------------------------------------------------------------
